@@ -26,6 +26,19 @@ def shared_attrs(prog):
     for st in walk_no_nested(f):
         if isinstance(st, ast.Assign) and isinstance(st.targets[0], ast.Attribute) and cfg in src(st.value):
             out[st.targets[0].attr] = st
+    # the same written as a loop:  for kind in ('db', ...): setattr(args, kind + '_config_path', os.path.join(cfg, ...))
+    for lp in [x for x in walk_no_nested(f) if isinstance(x, ast.For) and isinstance(x.iter, (ast.Tuple, ast.List)) and isinstance(x.target, ast.Name)]:
+        for c in ast.walk(lp):
+            if isinstance(c, ast.Call) and call_name(c) == "setattr" and len(c.args) == 3 and cfg in src(c.args[2]):
+                for e in lp.iter.elts:
+                    if isinstance(e, ast.Constant) and isinstance(e.value, str):
+                        from ..engine import staticeval
+                        try:
+                            name = staticeval.evaluate(c.args[1], {lp.target.id: e.value})
+                        except Exception:
+                            continue
+                        if isinstance(name, str):
+                            out[name] = enclosing_stmt(c)
     return out
 
 
@@ -116,6 +129,10 @@ class Analyser:
                         if is_target(a) and i < len(params):
                             for kind, site in self.param_effects(callee, params[i]):
                                 eff.append((kind, n))
+                    for k in n.keywords:
+                        if k.arg in params and is_target(k.value):
+                            for kind, site in self.param_effects(callee, k.arg):
+                                eff.append((kind, n))
         return eff
 
     def tolerant(self, load_call, open_call, f):
@@ -201,11 +218,14 @@ def a5(prog, ctx):
                        % (q, sname, "; ".join(src(d[1])[:40] for d in rd)))
     ctx.floor("A5", "cache registration call sites", n, 3)
     # the annotation-db cache registers inline in convert_db: the registration must follow the conversion in the same block
-    cd = prog.func("src/gtf2db.py", "convert_db")
+    cd = prog.func_inlined("src/gtf2db.py", "convert_db")
+    loaded = [st_.targets[0].id for st_ in cd.body if isinstance(st_, ast.Assign) and isinstance(st_.targets[0], ast.Name)
+              and isinstance(st_.value, ast.Call) and call_name(st_.value) == "load_json_cache"]
     regs = [st_ for st_ in cd.body if isinstance(st_, ast.Assign) and isinstance(st_.targets[0], ast.Subscript)
-            and src(st_.targets[0].value) == "converted_gtfs"]
-    convs = [st_ for st_ in cd.body if isinstance(st_, ast.If) and "convert_fn(" in src(st_)]
-    if len(regs) != 1 or not convs or convs[-1].lineno > regs[0].lineno:
+            and src(st_.targets[0].value) in loaded]
+    convs = [i for i, st_ in enumerate(cd.body) if any(isinstance(c, ast.Call) and call_name(c) == "convert_fn" for c in ast.walk(st_))]
+    ridx = [i for i, st_ in enumerate(cd.body) if st_ in regs]
+    if len(regs) != 1 or not convs or convs[-1] > ridx[0]:
         ctx.fail("A5", cd, "convert_db", "converted_gtfs[...] = ...", "the annotation cache entry is not registered right after this run's own conversion")
     else:
         ctx.ok("A5", "src/gtf2db.py:%d" % regs[0].lineno, "convert_db registers the entry after its own convert_fn call; earlier returns hand out validated entries")
